@@ -98,6 +98,11 @@ chk('C08', 'exploration', 'exhaustive enumeration of the configuration lattice o
     'one open finding (non-multiple bounds whose width is a multiple are accepted after pastify) suppressed by a syntactic predicate on the reject cases',
     'DESIGN.md section 5 C08')
 
+chk('C20', 'exploration', 'bounded exhaustive enumeration of formulas x Boolean-valued traces x all re-assignments of the unreported positions',
+    'for every formula of the explainer fragment and every trace of length <= 4 over {-1,1} the real evaluate()+explain() is run; for a violated trace ALL re-assignments of the positions that are not reported are enumerated and must still violate (reference rho < 0); for a satisfied trace nothing may be reported',
+    'values restricted to {-1,1}; one open finding (iff/xor/rise/fall over polarity-dependent operands) suppressed by a syntactic predicate',
+    'DESIGN.md section 5 C20')
+
 def main():
     props = [json.loads(l) for l in open(os.path.join(ROOT, 'properties.jsonl'))]
     checks = []
